@@ -37,15 +37,18 @@ var verifC01Src = []string{
 	"create table `new.csv` (c1); insert into `new.csv` values ('x'); insert into a values (2,'b'); update l set v = @t;",
 	// 10: data-changing statements that change nothing: the file is not one the transaction changed
 	"update b set k = 1 where k = 99; delete from b where k = 99; insert into b select k from b where k = 99; select 1 / @z;",
+	// 11: two temporary tables changed before one COMMIT, changed again, ROLLBACK
+	"declare tt view (c1); declare uu view (c1); insert into tt values (1); insert into uu values (1); commit; insert into tt values (2); insert into uu values (2), (3); rollback; select 1 / @z;",
 }
 var verifC01Progs [][]parser.Statement
-var verifC01Count parser.SelectQuery
+var verifC01Count, verifC01CountU parser.SelectQuery
 
 func VerifC01Setup() {
 	for _, s := range verifC01Src {
 		verifC01Progs = append(verifC01Progs, verifParse(s))
 	}
 	verifC01Count = verifParseSelect("select c1 from tt")
+	verifC01CountU = verifParseSelect("select c1 from uu")
 }
 
 // Procedures on CSV files in the modelled file system and on a temporary table, run as `csvq`
@@ -107,6 +110,13 @@ func VerifC01Procedures() {
 			verifAssert("temporary table as at the last COMMIT", view.RecordLen() == 1)
 		} else {
 			verifAssert("temporary table after ROLLBACK and a committed insert", view.RecordLen() == 2)
+		}
+	case 11:
+		v1, e1 := Select(verifCtx(), scope, verifC01Count)
+		v2, e2 := Select(verifCtx(), scope, verifC01CountU)
+		verifAssert("temporary tables readable", e1 == nil && e2 == nil)
+		if e1 == nil && e2 == nil {
+			verifAssert("both temporary tables are as at the last COMMIT", v1.RecordLen() == 1 && v2.RecordLen() == 1)
 		}
 	case 4:
 		wantNew, newExists = "c1\n", true
